@@ -182,19 +182,43 @@ def near_miss(case):
     return any(l['key'] == who for l in case['lines'])
 
 
+GOOD_WIN = ('in', 'startsNow', 'endsNext')
+
+
+def pres_faults(p):
+    if p['kind'] == 'key':
+        return 0 if p['holds'] else 1
+    return ((p['type'] != 'host') + (p['win'] not in GOOD_WIN) +
+            (p['princ'] == 'other') + (not p['certSig']) + (not p['holds']))
+
+
 def stratified(table, idx, limit):
     """Sample that keeps (a) every row on which the lookup as implemented
-    today and the property differ, (b) mostly near-miss rejections,
-    (c) acceptances, (d) other rejections."""
+    today and the property differ, (b) rejections that are one fault away
+    from an acceptance (each single check of the decision is only visible
+    there), (c) acceptances, (d) other rejections."""
+    # is the trust configuration fine for a faultless presentation?
+    env_ok = {}
+    for c in table:
+        if c['rule'] and pres_faults(c['pres']) == 0:
+            env_ok[str((c['lines'], c['port'], c['mode'], c['cbKey'],
+                        c['cbCA'], c['pres']['kind']))] = True
+
+    def one_fault(c):
+        k = str((c['lines'], c['port'], c['mode'], c['cbKey'], c['cbCA'],
+                 c['pres']['kind']))
+        f = pres_faults(c['pres'])
+        return (f == 1 and env_ok.get(k, False)) or \
+            (f == 0 and near_miss(c))
     a = [i for i in idx if table[i]['rule'] != table[i]['asis']][:80]
     rest = [i for i in idx if table[i]['rule'] == table[i]['asis']]
-    b = [i for i in rest if not table[i]['rule'] and near_miss(table[i])]
+    b = [i for i in rest if not table[i]['rule'] and one_fault(table[i])]
     c = [i for i in rest if table[i]['rule']]
     d = [i for i in rest if not table[i]['rule'] and
-         not near_miss(table[i])]
+         not one_fault(table[i])]
     left = max(0, limit - len(a))
-    nb = min(len(b), left * 45 // 100)
-    nc = min(len(c), left * 35 // 100)
+    nb = min(len(b), left * 50 // 100)
+    nc = min(len(c), left * 30 // 100)
     nd = max(0, left - nb - nc)
     return a + b[:nb] + c[:nc] + d[:nd]
 
